@@ -34,7 +34,9 @@ func normaliseOpIDs(root map[string]any, f func(string) string) {
 // decorate adds text that must survive the embedding byte for byte: non-ASCII, quotes,
 // backslashes, newlines and long descriptions (several chunks of 80 columns).
 func decorate(rng *rand.Rand, d *gendoc.Doc) {
-	texts := []string{"plain", "naïve café — 日本語 \U0001F600", "quote \" backslash \\ tab\t nl\n end", strings.Repeat("long description ", 40+rng.Intn(200)), "`backtick` ${x} %s"}
+	texts := []string{"plain", "naïve café — 日本語 \U0001F600", "quote \" backslash \\ tab\t nl\n end", strings.Repeat("long description ", 40+rng.Intn(200)), "`backtick` ${x} %s",
+		// markup, and text that SPELLS the escapes an HTML-safe JSON encoder writes (a backslash followed by u003c ...)
+		"a < b && c > d, <b>bold</b> & more", `written as \u003c and \u003e, or \u0026; a JSON text: {"html":"\u003cb\u003ehi\u003c/b\u003e"}`, `back\\slashes \\u003c \n not-a-newline`}
 	for _, p := range d.Paths {
 		for _, o := range p.Ops {
 			if rng.Intn(2) == 0 {
